@@ -511,7 +511,6 @@ class Core(composites.Composite):
 
         # could speed up output by passing format args as an arg and only process if verb good.
         runLog.debug("Adding   {0} to {1}".format(a, self))
-        composites.Composite.add(self, a)
         aName = a.getName()
 
         spatialLocator = spatialLocator or a.spatialLocator
@@ -520,9 +519,10 @@ class Core(composites.Composite):
             raise ValueError(
                 "Cannot add {} because location {} is already filled by {}."
                 "".format(
-                    aName, a.spatialLocator, self.childrenByLocator[a.spatialLocator]
+                    aName, spatialLocator, self.childrenByLocator[spatialLocator]
                 )
             )
+        composites.Composite.add(self, a)
 
         if spatialLocator is not None:
             # transfer spatialLocator to Core one
